@@ -1,3 +1,5 @@
-/- C06: the per-algorithm resume theorems (Props/C06.lean) and the closed-loop ones (Props/C06Closed.lean) -/
+/- C06: the per-algorithm resume theorems (Props/C06.lean) the closed-loop ones (Props/C06Closed.lean) and the
+   counter / monitor cells under a monitor replaced in the middle of the run (Props/C06Mon.lean) -/
 import MysticVerif.Props.C06
 import MysticVerif.Props.C06Closed
+import MysticVerif.Props.C06Mon
